@@ -279,7 +279,14 @@ def oracle_sound(case, out, pressure=False):
                     stale[f[1]] = sp.m[f[1]]
                     sp.remove(f[1])
             else:
-                stale.pop(f[1], None)
+                if pressure and backend.startswith('p'):
+                    # under memory pressure the copy of ANY value may fail (same known finding): the entry that this store
+                    # supersedes may be left behind; remember it (an older left-over stays the candidate if there is no newer one)
+                    if f[1] in sp.m:
+                        pe = sp.m[f[1]]
+                        stale[f[1]] = (pe[0], pe[1], pe[2], None)
+                else:
+                    stale.pop(f[1], None)
                 continue_store = True
                 sp.store(f[1], valtok_of(f[2]), ts, int(f[4]), g)
             if continue_store and pressure and g is None:
@@ -293,8 +300,11 @@ def oracle_sound(case, out, pressure=False):
                     return ('bad-output', 'malformed hit token ' + a[:200])
                 where = 'op %d (%s) answered %s' % (i, o[:80], a[:160])
                 se = stale.get(f[1])
-                if e is None and se is not None and se[2] >= sp.now and af[1] == se[0] and af[2] == ('+'.join(se[1]) if se[1] else '.') \
-                        and int(af[3]) == se[2]:
+
+                def same(ent):
+                    return (ent is not None and ent[2] >= sp.now and af[1] == ent[0] and af[2] == ('+'.join(ent[1]) if ent[1] else '.')
+                            and int(af[3]) == ent[2] and (ent[3] is None or int(af[4]) == ent[3]))
+                if not same(e) and same(se):
                     return ('stale-after-failed-store', 'the latest store under this key could not be allocated (value larger than the '
                             'shared segment) and was dropped silently, but the superseded entry is still served: ' + where)
                 if e is None:
@@ -356,6 +366,8 @@ def oracle_sound(case, out, pressure=False):
 def oracle(case, out):
     if out == '<missing>':
         return None         # the worker stopped at an earlier case (which carries the crash marker); no verdict for this one
+    if case.startswith('prs '):
+        return oracle_sound(case, out, pressure=True)
     if case.startswith('hm '):
         return oracle_hm(case, out)
     if case.startswith('ifc ') or case.startswith('ifp '):
@@ -781,6 +793,20 @@ def ifc_cases(rng, n, backends, limits):
     return cases
 
 
+def pressure_cases(rng, n):
+    """process_shared cache with values of 4..60 KiB in a 512 KiB / 1 MiB segment: not_enough_memory() evictions, failed copies,
+    bad_alloc -> nl_clear.  No model (the allocator is the environment); the oracle demands that every hit is the latest store."""
+    cases = []
+    for _ in range(n):
+        be = rng.choice(['p512', 'p512', 'p1024'])
+        lim = rng.choice([0, 0, 3, 8, 50])
+        vsz = rng.choice([[4000, 9000], [20000, 30000], [30000, 60000], [100, 50000, 120000]])
+        nk = rng.choice([3, 6, 12])
+        ops = random_seq(rng, nk, rng.choice([1, 3]), rng.choice([20, 60, 120]), lim, big_values=True, vsz=vsz)
+        cases.append('prs %s %d %d %s' % (be, lim, T0, ' '.join(ops)))
+    return cases
+
+
 def gen_cases(ctx):
     rng = ctx.rng
     cases = []
@@ -896,6 +922,11 @@ def run(ctx):
     vlib.differential(ctx, seqs, exe, mexe, oracle, nontrivial, classify)
     if ctx.replay_cases is None:
         ifcs += ifc_cases(ctx.rng, ctx.scale(600, 6000), ['t', 'p512'], [0, 0, 2, 64])
+    prss = [c for c in cases if c.startswith('prs ')]
+    if ctx.replay_cases is None:
+        prss += pressure_cases(ctx.rng, ctx.scale(150, 1500))
+    if prss:
+        vlib.differential(ctx, prss, exe, None, oracle, nontrivial, classify, what='oracle only: process_shared cache under memory pressure')
     if ctx.replay_cases is None:
         hms += hm_cases(ctx.rng, ctx.scale(1500, 15000))
     if hms:
